@@ -1011,3 +1011,233 @@ C.contract(
     serves=['C01', 'C08', 'C10'],
     note='the whole item list is handed to the list printer under the same context (which truncates it and states the count: proved for '
          'pretty_bracketable_iterable); a copy that drops items here is refuted')
+
+
+# ==== pretty_dict (C10, C11, C08): which keys and values reach the printers, under which contexts ==================================
+# The document pretty_dict builds is glue around the key / value documents (commas, comments, flat_choice variants): the glue is not
+# named here.  What IS stated: the LOG of printer calls - a ghost list of (value, context) the hooks append to - and the notice.
+U.declare({
+    'CallRec': ('record', [('v', 'Val'), ('c', 'Ctx'), ('strkey', 'Bool')]),
+    'CallLog': ('list', 'CallRec', 'snoc'),
+    'ValSnoc': ('list', 'Val', 'snoc'),
+    'PairRec': ('record', [('k', 'Val'), ('v', 'Val'), ('kdoc', 'Doc'), ('vdoc', 'Doc'), ('kcomment', 'OptStr'), ('vcomment', 'OptStr')]),
+    'PairList': ('list', 'PairRec', 'snoc'),
+    'DocSnoc': ('list', 'Doc', 'snoc'),
+    'EnumRec': ('record', [('idx', 'Int'), ('tup', 'PairRec')]),
+    'EnumList': ('list', 'EnumRec', 'fwd'),
+})
+
+
+@C.spec([('d', 'Val'), ('k', 'Val')], 'Val', opaque=True)
+def dget(d, k):
+    return d[k]
+
+
+@C.spec([('k', 'Val'), ('ctx', 'Ctx')], 'Doc', opaque=True)
+def str_doc(k, ctx):
+    """pretty_str(k, ctx=ctx)"""
+    return None
+
+
+@C.spec([('d', 'Doc')], 'Bool', opaque=True)
+def commented(d):
+    return True
+
+
+@C.spec([('d', 'Doc')], 'Str', opaque=True)
+def comment_of(d):
+    return d.annotation.value
+
+
+@C.spec([('d', 'Doc')], 'Doc', opaque=True)
+def inner(d):
+    return d.doc
+
+
+@C.spec([('xs', 'ValList')], 'ValList', opaque=True)
+def sorted_ks(xs):
+    """sorted(xs, key=_AlwaysSortable)"""
+    return sorted(xs)
+
+
+@C.spec([('s', 'ValSnoc'), ('f', 'ValList')], 'ValList')
+def app_sf(s, f):
+    """the keys looked up so far, followed by the keys still to come"""
+    if not s:
+        return f
+    return app_sf(s[:-1], cons(s[-1], f))
+
+
+@C.spec([('log', 'CallLog'), ('ctx', 'Ctx')], 'Bool')
+def all_ok(log, ctx):
+    """every key and value is printed under a context that keeps max_seq_len, sort_dict_keys and indent and is exactly one level
+    deeper (a str / bytes key is printed at the level of the dict: `not a nested call on purpose` - the depth of such a key is a known
+    finding of C11 decided by the bounded stand-in and not claimed here)"""
+    if not log:
+        return True
+    return (log[-1].c.max_seq_len == ctx.max_seq_len and log[-1].c.sort_dict_keys == ctx.sort_dict_keys and log[-1].c.indent == ctx.indent
+            and (log[-1].strkey or log[-1].c.depth_left == ctx.depth_left - 1)
+            and implies(log[-1].strkey, log[-1].c.depth_left == ctx.depth_left) and all_ok(log[:-1], ctx))
+
+
+def _log(I, v, ctx, strkey=False):
+    if 'log_' in I.env:
+        I.env['log_'] = U.cons('CallLog', U.mk('CallRec', v, ctx, z3.BoolVal(strkey)), I.env['log_'])
+
+
+_h_ppv_base = _h_ppv
+
+
+def _h_ppv2(I, args, kwargs, node):
+    r = _h_ppv_base(I, args, kwargs, node)
+    if z3.is_app(r) and r.decl().eq(I.translator.decl_of(C.specs['doc_of'])):
+        _log(I, r.arg(0), r.arg(1))
+    return r
+
+
+def _h_pretty_str(I, args, kwargs, node):
+    kw = dict(kwargs)
+    k = I.coerce(args[0], 'Val')
+    ctx = I.coerce(args[1] if len(args) > 1 else kw.pop('ctx'), 'Ctx')
+    if kw or len(args) > 2:
+        raise OutsideSubset('pretty_str call shape')
+    _log(I, k, ctx, strkey=True)
+    return S(I, 'str_doc', k, ctx)
+
+
+def _h_unnamed(name):
+    def h(I, args, kwargs, node):
+        return I.fresh('Doc', name)          # glue: some document (nothing is claimed about it)
+    return h
+
+
+_h_concat_base = _h_concat
+
+
+def _h_concat2(I, args, kwargs, node):
+    try:
+        return _h_concat_base(I, args, kwargs, node)
+    except OutsideSubset:
+        return I.fresh('Doc', 'concat')      # children that are plain strings or an accumulated list: unnamed glue
+
+
+_h_commentdoc_base = _h_commentdoc
+
+
+def _h_commentdoc2(I, args, kwargs, node):
+    if 'tcnote_' in I.env and node is not None and node.args and isinstance(node.args[0], ast.Name) and node.args[0].id == 'trailing_comment':
+        I.env['tcnote_'] = _optstr(I, I.coerce(args[0], 'Str'))        # the comment that closes the dict: the notice / attached comment
+    return _h_commentdoc_base(I, args, kwargs, node)
+
+
+def _subscript_val(I, base, sl):
+    k = I.coerce(I.ev(sl), 'Val')
+    if 'keys_' in I.env:
+        I.env['keys_'] = U.cons('ValSnoc', k, I.env['keys_'])
+    return S(I, 'dget', base, k)
+
+
+def _h_sorted2(I, args, kwargs, node):
+    xs = args[0]
+    key = kwargs.get('key')
+    if is_z3(xs) and I.sort_of(xs) == 'ValList' and isinstance(key, tuple) and key[:2] == ('opaque', '_AlwaysSortable') and len(kwargs) == 1:
+        return S(I, 'sorted_ks', xs)
+    if kwargs:
+        raise OutsideSubset('sorted() with other keywords')
+    return _h_sorted(I, args, kwargs, node)
+
+
+def _b_enumerate(I, args, kwargs, node):
+    return GenExp('enumerate', arg=args[0])
+
+
+def _for_hook(I, it, s):
+    """for idx, tup in enumerate(pairs): an ARBITRARY list of (index, pair) records - an over-approximation of the pairs collected
+    before (nothing the contract states depends on which pair is which)"""
+    if isinstance(it, GenExp) and it.kind == 'enumerate' and is_z3(it.arg) and I.sort_of(it.arg) == 'PairList':
+        return I.fresh('EnumList', 'enumerated')
+    return None
+
+
+U.for_hook = _for_hook
+U.subscript_hooks = {'Val': _subscript_val}
+U.method_hooks[('Val', 'keys')] = lambda I, obj, args, kwargs, node: S(I, 'items', obj)       # the keys, in the dict's order
+U.attr_hooks[('Doc', 'annotation')] = lambda I, base: ('opaque', 'annotation', base)
+U.attr_hooks[('Doc', 'doc')] = lambda I, base: S(I, 'inner', base)
+
+
+def _opaque_attr(I, obj, attr):
+    if obj[1] == 'annotation' and attr == 'value':
+        return S(I, 'comment_of', obj[2])
+    raise OutsideSubset('attribute %s of %r' % (attr, obj[1]))
+
+
+U.opaque_attr = _opaque_attr
+_interp.BUILTINS.setdefault('enumerate', _b_enumerate)
+for _n in ('COLON', 'LINE', 'HARDLINE', 'SOFTLINE'):
+    U.consts[_n] = z3.Const('DOC_' + _n, D)
+U.consts['MULTILINE_STRATEGY_PARENS'] = z3.Const('MULTILINE_STRATEGY_PARENS', U.sort('Strategy'))
+U.consts['MULTILINE_STRATEGY_INDENTED'] = z3.Const('MULTILINE_STRATEGY_INDENTED', U.sort('Strategy'))
+C.extern[PP].update({
+    'pretty_python_value': FuncVal('hook', 'pretty_python_value', _h_ppv2),
+    'pretty_str': FuncVal('hook', 'pretty_str', _h_pretty_str),
+    'concat': FuncVal('hook', 'concat', _h_concat2),
+    'commentdoc': FuncVal('hook', 'commentdoc', _h_commentdoc2),
+    'sorted': FuncVal('hook', 'sorted', _h_sorted2),
+    'is_commented': FuncVal('hook', 'is_commented', lambda I, a, k, n: S(I, 'commented', I.coerce(a[0], 'Doc'))),
+    '_AlwaysSortable': ('opaque', '_AlwaysSortable'),
+    'group': FuncVal('hook', 'group', _h_unnamed('group')), 'flat_choice': FuncVal('hook', 'flat_choice', _h_unnamed('flat_choice')),
+    'nest': FuncVal('hook', 'nest', _h_unnamed('nest')), 'bracket': FuncVal('hook', 'bracket', _h_unnamed('bracket')),
+    'always_break': FuncVal('hook', 'always_break', _h_unnamed('always_break')),
+})
+_KS = '(sorted_ks(items(d)) if ctx.sort_dict_keys else items(d))'
+_DTC = 'eff_tc(old(trailing_comment), ctx.max_seq_len, vlen(d))'
+_DPLACE = 'cat([LBRACE, ELLIPSIS, RBRACE])'
+_pd = C.contract(
+    PP, 'pretty_dict', params={'d': 'Val', 'ctx': 'Ctx', 'trailing_comment': 'OptStr'}, returns='Doc',
+    requires=[('limit-at-least-one', 'ctx.max_seq_len is None or unwrap(ctx.max_seq_len) >= 1')],
+    ghost={'log_': ('CallLog', '[]'), 'keys_': ('ValSnoc', '[]'), 'tcnote_': ('OptStr', 'None')},
+    locals_={'pairs': 'PairList', 'parts': 'DocSnoc', 'kcomment': 'OptStr', 'vcomment': 'OptStr'},
+    ensures=[
+        ('depth-cut-placeholder-keeps-class-and-prints-nothing',
+         'implies(ctx.depth_left == 0, result == (%s if cls_of(d) == dict else fncall(ctx, ident(cls_of(d)), [%s], [], True, None)) '
+         'and len(log_) == 0)' % (_DPLACE, _DPLACE)),
+        ('exactly-the-first-min-len-N-keys-in-order', 'implies(ctx.depth_left != 0, app_sf(keys_, []) == taken(ctx.max_seq_len, %s))' % _KS),
+        ('every-key-and-value-one-level-deeper-with-the-same-limit', 'implies(ctx.depth_left != 0, all_ok(log_, ctx))'),
+        ('notice-iff-longer-with-len-minus-N', 'implies(ctx.depth_left != 0, tcnote_ == (%s if has_text(%s) else None))' % (_DTC, _DTC)),
+    ],
+    loops={
+        0: dict(rest='rest_keys', modifies=['log_', 'keys_'],
+                inv=[('keys', 'app_sf(keys_, rest_keys) == taken(ctx.max_seq_len, %s)' % _KS), ('contexts', 'all_ok(log_, ctx)'),
+                     ('no-closing-comment-yet', 'tcnote_ is None')]),
+        1: dict(rest='rest_pairs', modifies=['log_'],
+                inv=[('keys', 'app_sf(keys_, []) == taken(ctx.max_seq_len, %s)' % _KS), ('contexts', 'all_ok(log_, ctx)'),
+                     ('no-closing-comment-yet', 'tcnote_ is None')]),
+    },
+    serves=['C10', 'C11', 'C08'])
+_pd.defaults = {'trailing_comment': None}
+_pd.shards = 8
+C.assume('pretty_dict: the glue around the key / value documents (commas, comment placement, flat_choice variants, brackets) is unnamed; '
+         'the second loop runs over an arbitrary list of the collected pairs; the subclass wrapper of a non-empty dict is decided by the '
+         'bounded stand-in')
+
+
+def _m_replace(I, obj, args, kwargs, node):
+    """ctx._replace(field=value, ...): the named fields replaced, every other kept (PROVED for every subset of fields in family context)"""
+    if args or '**' in kwargs:
+        raise OutsideSubset('_replace call shape')
+    flds = U.decl_spec['Ctx'][1]
+    unknown = set(kwargs) - {f for f, _ in flds} - {'visited', 'user_ctx'}
+    if unknown:
+        raise SymRaise('AssertionError', 'unknown field %s' % sorted(unknown))
+    vals = []
+    for f, sn in flds:
+        if f in kwargs:
+            v = kwargs[f]
+            vals.append(U.ctor('OptInt', 'NoInt')() if (v is None and sn == 'OptInt') else I.coerce(v, sn))
+        else:
+            vals.append(z3.simplify(U.rget('Ctx', f, obj)))
+    return U.mk('Ctx', *vals)
+
+
+U.method_hooks[('Ctx', '_replace')] = _m_replace
